@@ -294,6 +294,145 @@ func (sc *scen) blockedCall(read bool, how string) {
 	sc.release(w, how, st, pst, side, read)
 }
 
+// followers: a deadline fires while a call is blocked; a second call queued
+// behind it and a third one issued afterwards (the deadline is NOT re-armed)
+// must come back as well, because the expired deadline is still in force.
+func (sc *scen) followers(read bool, how string, queued bool) {
+	from := sc.rng.Intn(2)
+	a, b, ok := sc.connect(from)
+	if !ok {
+		return
+	}
+	st, side := a, from
+	if sc.rng.Intn(2) == 0 {
+		st, side = b, 1-from
+	}
+	setDeadline := func(d time.Time) error {
+		if read {
+			return st.SetReadDeadline(d)
+		}
+		return st.SetWriteDeadline(d)
+	}
+	call := func(name string) *watched {
+		size := 1 + sc.rng.Intn(2000)
+		if read {
+			return watch(name, func() (int, error) { return st.Read(make([]byte, size)) })
+		}
+		return watch(name, func() (int, error) { return st.Write(make([]byte, size)) })
+	}
+	verb := map[bool]string{true: "Read", false: "Write"}[read]
+	var d time.Time
+	var first *watched
+	if how == "deadline-preset" {
+		pre := func() {
+			d = time.Now().Add(time.Duration(15+sc.rng.Intn(30)) * time.Millisecond)
+			setDeadline(d)
+		}
+		if read {
+			first = sc.blockReader(st, pre)
+		} else {
+			first = sc.blockWriter(st, side, pre)
+		}
+	} else {
+		if read {
+			first = sc.blockReader(st, nil)
+		} else {
+			first = sc.blockWriter(st, side, nil)
+		}
+	}
+	var second *watched
+	if queued {
+		second = call(verb)
+		time.Sleep(time.Duration(1+sc.rng.Intn(3)) * time.Millisecond)
+		sc.logf("second %s queued behind the first; returned already: first %v, second %v", verb, first.returned(), second.returned())
+	}
+	if how != "deadline-preset" {
+		d = time.Now().Add(time.Duration(5+sc.rng.Intn(20)) * time.Millisecond)
+		if !sc.mustReturn("Set"+verb+"Deadline", func() error { return setDeadline(d) }) {
+			return
+		}
+	}
+	b1 := !first.returned()
+	b2 := queued && !second.returned()
+	time.Sleep(time.Until(d))
+	sc.logf("deadline instant passed (%s)", how)
+	// Whichever of the two holds the stream sees the timer fire; the other one
+	// gets its turn afterwards. Both are enabled by the deadline instant.
+	if !sc.expect(first, "deadline-passed", d, b1) {
+		return
+	}
+	if queued && !sc.expect(second, "deadline-passed-while-queued", d, b2) {
+		return
+	}
+	// A further call, issued after the deadline expired and without re-arming it.
+	third := call(verb)
+	sc.logf("third %s issued after the deadline expired, deadline not re-armed", verb)
+	if sc.expect(third, "issued-after-deadline-expired", third.issued, true) {
+		if cls := errClass(third.err); cls == "deadline" {
+			sc.r.Count("calls_after_expiry_failed_with_deadline_error", 1)
+		} else {
+			sc.logf("third call returned %s", cls)
+		}
+	}
+}
+
+// closeEverything: one multiplexer with a blocked Read, a blocked Write, a
+// pending OpenStream and a blocked AcceptStream is closed; every call must
+// return and Closed() must fire, also when the carrier's Close reports an error.
+func (sc *scen) closeEverything() {
+	x := sc.rng.Intn(2)
+	m := sc.s.mux[x]
+	ra, rb, ok := sc.connect(x)
+	if !ok {
+		return
+	}
+	wa, wb, ok := sc.connect(1 - x)
+	if !ok {
+		return
+	}
+	_, _ = rb, wa
+	rd := sc.blockReader(ra, nil)
+	wr := sc.blockWriter(wb, x, nil)
+	ctx, cancel := context.WithCancel(context.Background())
+	defer cancel()
+	op := watch("OpenStream", func() (int, error) {
+		st, err := m.OpenStream(ctx)
+		if st != nil {
+			st.Close()
+		}
+		return 0, err
+	})
+	ac := watch("AcceptStream", func() (int, error) {
+		st, err := m.AcceptStream(ctx)
+		if st != nil {
+			st.Close()
+		}
+		return 0, err
+	})
+	closed := watch("Closed()", func() (int, error) { <-m.Closed(); return 0, nil })
+	sc.s.mon.await(2*time.Second, func(w *wireMon) bool { return w.counts[phDelivered][x][kOpen] >= 2 })
+	time.Sleep(time.Duration(2+sc.rng.Intn(3)) * time.Millisecond)
+	blocked := map[*watched]bool{}
+	for _, w := range []*watched{rd, wr, op, ac, closed} {
+		blocked[w] = !w.returned()
+	}
+	var closeErr error
+	if !sc.mustReturn("Multiplexer.Close", func() error { closeErr = m.Close(); return nil }) {
+		return
+	}
+	at := time.Now()
+	sc.logf("Multiplexer.Close returned %q (carrier Close fails: %v)", errText(closeErr), sc.cfg.CloseFail)
+	how := "mux-close"
+	if sc.cfg.CloseFail {
+		how = "mux-close-with-failing-carrier-close"
+	}
+	for _, w := range []*watched{closed, rd, wr, op, ac} {
+		if !sc.expect(w, how, at, blocked[w]) {
+			return // one witness is enough
+		}
+	}
+}
+
 // backlog: opens against a peer that never accepts.
 func (sc *scen) backlog() {
 	b := sc.cfg.Backlog
@@ -565,6 +704,7 @@ type c25Case struct {
 	kind   string
 	how    string
 	read   bool
+	queued bool
 	cfg    sessCfg
 	volume int64
 }
@@ -578,6 +718,12 @@ func (c c25Case) label() string {
 		return "blocked-write/" + c.how
 	case "accept":
 		return "blocked-accept/" + c.how
+	case "followers":
+		q := map[bool]string{true: "+queued", false: ""}[c.queued]
+		if c.read {
+			return "reads-after-fired-deadline/" + c.how + q
+		}
+		return "writes-after-fired-deadline/" + c.how + q
 	}
 	return c.kind
 }
@@ -592,6 +738,7 @@ func c25() {
 		if win > 0 {
 			c.Window = win
 		}
+		c.CloseFail = rng.Intn(3) == 0
 		return c
 	}
 	for rep := 0; rep < reps; rep++ {
@@ -608,6 +755,20 @@ func c25() {
 			c := cfgFor(0)
 			c.Backlog = b
 			cases = append(cases, c25Case{kind: "backlog", cfg: c})
+		}
+		for _, how := range []string{"deadline-preset", "deadline-by-other-goroutine"} {
+			for _, queued := range []bool{true, false} {
+				cases = append(cases, c25Case{kind: "followers", how: how, queued: queued, cfg: cfgFor(0)})
+				cases = append(cases, c25Case{kind: "followers", how: how, queued: queued, read: true, cfg: cfgFor(0)})
+			}
+		}
+		for _, fail := range []bool{true, false, true} {
+			c := cfgFor(0)
+			c.CloseFail = fail
+			if c.Backlog < 2 {
+				c.Backlog = 2
+			}
+			cases = append(cases, c25Case{kind: "close-everything", cfg: c})
 		}
 	}
 	// Head-of-line: the full 8 MiB at the default window, scaled volumes below.
@@ -665,6 +826,10 @@ func c25() {
 					sc.accept(cs.how)
 				case "backlog":
 					sc.backlog()
+				case "followers":
+					sc.followers(cs.read, cs.how, cs.queued)
+				case "close-everything":
+					sc.closeEverything()
 				case "head-of-line":
 					sc.headOfLine(cs.volume)
 				}
@@ -687,5 +852,5 @@ func c25() {
 	setProcs(16)
 	r.Assume("bounded-progress restatement of 'never hang': a call must return within 10 s (>= 100x its nominal latency) after its enabling event was recorded; outstanding calls count as violations only if the control heartbeat had no gap of 1 s or more since the enabling event")
 	r.Assume("enabling events are recorded on one monotonic clock: deadline instant passed, local Close/CloseWrite/Multiplexer.Close returned, the peer's close or close-write message delivered according to the wire sniffer, local multiplexer observed closed after the peer closed the carrier, context cancelled")
-	r.Finish("scenarios on two real multiplexers over the harness carrier: a Write blocked on an exhausted window / a Read blocked on an empty stream released by a preset deadline, a deadline set by another goroutine (future or past), local Close or CloseWrite by a third goroutine, local Multiplexer.Close, the peer's Close or CloseWrite (as seen by the sniffer), closure of the carrier by the peer; AcceptStream released by context cancellation or closure; OpenStream against a peer that never accepts (first b pending until cancelled, the rest rejected); 1..3 stalled streams while another stream moves up to 8 MiB. evaluations = calls judged; a case is non-trivial if the call was still outstanding when its enabling event was produced; distinct = distinct (scenario, call, enabling event, result class, window, write buffers)", 15)
+	r.Finish("scenarios on two real multiplexers over the harness carrier: a Write blocked on an exhausted window / a Read blocked on an empty stream released by a preset deadline, a deadline set by another goroutine (future or past), local Close or CloseWrite by a third goroutine, local Multiplexer.Close, the peer's Close or CloseWrite (as seen by the sniffer), closure of the carrier by the peer; AcceptStream released by context cancellation or closure; a second call queued behind a call whose deadline fires and a third call issued afterwards without re-arming the deadline (reads and writes); Multiplexer.Close with a blocked Read, Write, OpenStream and AcceptStream outstanding, Closed() included, on carriers whose Close succeeds or returns an error while shutting down (a third of all scenarios use such a carrier); OpenStream against a peer that never accepts (first b pending until cancelled, the rest rejected); 1..3 stalled streams while another stream moves up to 8 MiB. evaluations = calls judged; a case is non-trivial if the call was still outstanding when its enabling event was produced; distinct = distinct (scenario, call, enabling event, result class, window, write buffers)", 15)
 }
